@@ -143,7 +143,7 @@ def check(case):
 
 def run(ctx):
     ctx.corpus(check)
-    ctx.given(cases(), check, quick=64, thorough=1600, shrink=not ctx.quick)
+    ctx.given(cases(), check, quick=40, thorough=1600, shrink=not ctx.quick)
 
 
 def replay(case):
